@@ -46,3 +46,39 @@ package processor
 //@   ensures err == nil ==> ops[len(r0)-1].CanonicalReference == versionID
 //@   ensures err == nil ==> (forall q int :: 0 <= q && q < len(r0)-1 ==> ops[q].CanonicalReference != versionID)
 //@   ensures err != nil ==> (forall q int :: 0 <= q && q < len(ops) ==> ops[q].CanonicalReference != versionID)
+
+// ---- C02 / C01: published creates are tried before unpublished ones, each group in chronological order ----
+//
+//@ func (*OperationProcessor).Resolve
+//@   closure 1
+//@     relation pubFirst over createOps
+//@     requires 0 <= i && i < len(createOps) && 0 <= j && j < len(createOps) && allNonNil(createOps)
+//@   end
+//
+// ---- C04 / C06: selection helpers ----
+//
+//@ spec afterOrUnpublished(op *operation.AnchoredOperation, t uint64, n uint64) bool {
+//@     op.CanonicalReference == "" || lexLess(t, n, op.TransactionTime, op.TransactionNumber) }
+//
+//@ func getOpsWithTxnGreaterThanOrUnpublished
+//@   requires allNonNil(ops)
+//@   loop 1
+//@     invariant allNonNil(ops) && len(selection) <= _k
+//@     invariant forall p int :: 0 <= p && p < len(selection) ==> 0 <= src(selection, p) && src(selection, p) < _k && selection[p] == ops[src(selection, p)] && afterOrUnpublished(ops[src(selection, p)], txnTime, txnNumber) && dst(selection, src(selection, p)) == p
+//@     invariant forall i int :: 0 <= i && i < _k && afterOrUnpublished(ops[i], txnTime, txnNumber) ==> 0 <= dst(selection, i) && dst(selection, i) < len(selection) && src(selection, dst(selection, i)) == i
+//@     invariant forall p int, q int :: 0 <= p && p < q && q < len(selection) ==> src(selection, p) < src(selection, q)
+//@   ensures forall p int :: 0 <= p && p < len(result) ==> result[p] != nil && afterOrUnpublished(result[p], txnTime, txnNumber)
+//@   ensures forall i int :: 0 <= i && i < len(ops) && afterOrUnpublished(ops[i], txnTime, txnNumber) ==> (exists p int :: 0 <= p && p < len(result) && result[p] == ops[i])
+//@   ensures len(result) <= len(ops)
+//
+//@ func filterOpsByVersionTime
+//@   requires allNonNil(ops)
+//@   loop 1
+//@     invariant allNonNil(ops) && len(filteredOps) <= _k
+//@     invariant forall p int :: 0 <= p && p < len(filteredOps) ==> 0 <= src(filteredOps, p) && src(filteredOps, p) < _k && filteredOps[p] == ops[src(filteredOps, p)] && ops[src(filteredOps, p)].TransactionTime <= uint64(unixOf(timeStr)) && dst(filteredOps, src(filteredOps, p)) == p
+//@     invariant forall i int :: 0 <= i && i < _k && ops[i].TransactionTime <= uint64(unixOf(timeStr)) ==> 0 <= dst(filteredOps, i) && dst(filteredOps, i) < len(filteredOps) && src(filteredOps, dst(filteredOps, i)) == i
+//@     invariant forall p int, q int :: 0 <= p && p < q && q < len(filteredOps) ==> src(filteredOps, p) < src(filteredOps, q)
+//@   ensures err == nil ==> parseOK(timeStr) && len(r0) > 0
+//@   ensures err == nil ==> (forall p int :: 0 <= p && p < len(r0) ==> r0[p] != nil && r0[p].TransactionTime <= uint64(unixOf(timeStr)))
+//@   ensures err == nil ==> (forall i int :: 0 <= i && i < len(ops) && ops[i].TransactionTime <= uint64(unixOf(timeStr)) ==> (exists p int :: 0 <= p && p < len(r0) && r0[p] == ops[i]))
+//@   ensures err != nil ==> !parseOK(timeStr) || (forall i int :: 0 <= i && i < len(ops) ==> !(ops[i].TransactionTime <= uint64(unixOf(timeStr))))
